@@ -85,9 +85,12 @@ func GenEED(rt *rapid.T, info *bool) *rc.EED {
 		}
 	}
 	msg := Str(rt, "eedmsg", 65535-300)
-	// the library strips one trailing newline from the message (documented
-	// behaviour of the reader); generate messages without one
+	// servers terminate some messages with a newline; the library's reader strips one
+	// trailing newline from the message (comparisons account for that)
 	msg = strings.TrimSuffix(msg, "\n")
+	if rapid.IntRange(0, 3).Draw(rt, "eednewline") == 0 {
+		msg += "\n"
+	}
 	return &rc.EED{
 		MsgNumber: rapid.Uint32().Draw(rt, "msgnr"), State: rapid.Uint8().Draw(rt, "state"), Class: rapid.Uint8().Draw(rt, "class"),
 		SQLState: []byte(Str(rt, "sqlstate", 5)), Status: st, Tran: uint16(rapid.IntRange(0, 4).Draw(rt, "tran")),
